@@ -49,6 +49,10 @@ def is_fresh(expr, names):
             return True
     if isinstance(expr, (ast.Dict, ast.DictComp)):
         return True
+    if isinstance(expr, ast.BinOp) and isinstance(expr.op, ast.BitOr):      # a | b builds a new dict
+        return True
+    if isinstance(expr, ast.Name) and expr.id in names.get('__fresh__', ()):
+        return True
     return False
 
 
@@ -79,6 +83,7 @@ def arg_mutated(fn, par):
     if par not in allargs:
         raise ExtractError(f'{fn.name}: parameter {par!r} not found (has {allargs})')
     names = {par}
+    fresh = set()           # locals known to hold a fresh container
     found = []
     for st in fn.body:
         if not names:
@@ -87,8 +92,11 @@ def arg_mutated(fn, par):
             tgt = st.targets[0].id
             # mutations inside the right-hand side happen before the rebind
             found += mutations_in(st.value, names)
+            if tgt not in names:
+                if is_fresh(st.value, {'__fresh__': fresh}): fresh.add(tgt)
+                else: fresh.discard(tgt)
             if tgt in names:
-                if is_fresh(st.value, names):
+                if is_fresh(st.value, {'__fresh__': fresh}):
                     names.discard(tgt)
                 elif not (isinstance(st.value, ast.Name) and st.value.id in names):
                     # rebound to something unknown (e.g. a helper's return value): may still be the caller's object
